@@ -12,6 +12,11 @@ def parseSide (j : Json) : Except String (List (String × Int)) := do
     let v ← (fromJson? pr[1]! : Except String Int)
     pure (k, v)
 
+def optStr (j : Json) : Except String (Option String) :=
+  match j with
+  | .null => .ok none
+  | v => (fromJson? v : Except String String).map some
+
 def parseOp (j : Json) : Except String Op := do
   let op ← Driver.getStr j "op"
   match op with
@@ -31,6 +36,25 @@ def parseOp (j : Json) : Except String Op := do
       if pr.size ≠ 2 then throw "mapping entry"
       pure (pr[0]!, pr[1]!)
     pure (.setMolMap (← Driver.getNat j "k") mapping (← Driver.getBool j "strict") (← Driver.getBool j "clear"))
+  | "addFromStr" =>
+    pure (.addFromStr (← Driver.getNat j "k") (← Driver.getStr j "reaction").toList
+      (← Driver.getOptStr j "rule") (← Driver.getBool j "suffix"))
+  | "parseRxns" => do
+    let arr ← Driver.getArr j "items"
+    let items ← arr.toList.mapM fun it => do
+      let pr ← (fromJson? it : Except String (Array Json))
+      if pr.size ≠ 2 then throw "parseRxns item"
+      let line ← (fromJson? pr[0]! : Except String String)
+      let rule ← optStr pr[1]!
+      pure (line.toList, rule)
+    pure (.parseRxns (← Driver.getNat j "k") items (← Driver.getStr j "default_rule")
+      (← Driver.getBool j "suffix") (← Driver.getBool j "prefer_suffix"))
+  | "parseRxnsRules" => do
+    let lines ← (← Driver.getArr j "lines").toList.mapM fun l =>
+      (fromJson? l : Except String String).map String.toList
+    let rules ← (← Driver.getArr j "rules").toList.mapM optStr
+    pure (.parseRxnsRules (← Driver.getNat j "k") lines rules (← Driver.getStr j "default_rule")
+      (← Driver.getBool j "suffix") (← Driver.getBool j "prefer_suffix"))
   | _ => throw s!"unknown op {op}"
 
 def sideJson (s : Side) : Json :=
@@ -62,6 +86,7 @@ def outJson : Out → Json
   | .okId i => Json.mkObj [("id", i)]
   | .err .keyError => "KeyError"
   | .err .valueError => "ValueError"
+  | .err .indexError => "IndexError"
   | .badOp => "badOp"
 
 def handle : Driver.Handler := fun cmd j =>
